@@ -126,6 +126,16 @@ CLAIMED = {
         "Functions that do not generate or build are property C05's subject and are listed as uncovered here. Value alphabets are boundary sets, not all values.",
         "DESIGN.md section 3 C01",
     ),
+    "C02": (
+        "exhaustive enumeration of C++ functions assembled from the atom table x value alphabets x {default, customised} naming, plus a class/namespace/overload scenario; generated C API driven by a C program; reference-model trace equality",
+        "Every C++ library assembled from the atom table (each atom alone, ordered pairs; atoms that have a plain C entry point) is wrapped by the real shroud and driven by a generated C "
+        "program that includes only the generated headers and calls every function over the product of the value alphabets, under the default names and under a customised C_prefix and "
+        "C_name_template (each C name is predicted from the documented template). A fixed scenario adds constructors/destructors, const/static/instance methods on two objects (right 'this'), "
+        "class arguments by pointer and reference, class results by pointer (library- and caller-owned) and by value, enums, overloads, each default arity, template instances, argument order "
+        "and nested namespaces. The library's RECV trace and the C caller's observations must equal the reference model line by line.",
+        "std::vector arguments/results and std::string results by value have no plain C entry point (covered through Fortran in C01).",
+        "DESIGN.md section 3 C02",
+    ),
 }
 
 PENDING_REASON = "check not built yet in this round (planned, see DESIGN.md section 8); not claimed until it runs"
